@@ -41,7 +41,10 @@ PrintOK(c, lv) ==
 \*   c15: print / re-parse round trip
 TextOK(c) ==
   LET lv == LeavesOf(c.toks) IN
-  IF c.blank = 1
+  IF c.empty = 1
+  THEN \* the empty string is the always-allow rule (C01, C02)
+       c.raised = 0 /\ ObsTable(c.table) = {{}}
+  ELSE IF c.blank = 1
   THEN \* text without any token: C02 is explicit that only the EMPTY string (and [] and @)
        \* mean always allow, so blanks alone deny; C01 / C15 make no claim about it
        c.raised = 0 /\ (c.want = "c02" => ObsTable(c.table) = {} /\ c.extra_allow = 0)
@@ -87,6 +90,8 @@ Verdict(c) == CASE c.kind = "text" -> TextOK(c)
                 [] c.kind = "value" -> ValueOK(c)
                 [] c.kind = "dump" -> DumpOK(c)
                 [] c.kind = "eq" -> EqOK(c)
+                \* C02: a rule value means the same whatever else the loaded document holds
+                [] c.kind = "ctx" -> c.alone = c.indoc /\ c.alone # "crash"
 
 Init == cid \in 1..Len(Cases) /\ ph = 0 /\ ok = TRUE
 Next == ph = 0 /\ ph' = 1 /\ ok' = Verdict(Cases[cid]) /\ UNCHANGED cid
